@@ -366,7 +366,7 @@ package dbft
 //@   ensures  [C15] @sameBase self.lastBlockTimestamp == old(self.lastBlockTimestamp)
 //@   ensures  @arms gTimerArms >= old(gTimerArms) && gBroadcasts >= old(gBroadcasts) && gInbound >= old(gInbound)
 //@   ensures  [C05] @decidedStays implies(old(self.blockProcessed), self.blockProcessed)
-//@   ensures  [C05,C07] @handedOver handedOver()
+//@   ensures  [C05,C07,C10] @handedOver handedOver()
 //@   ensures  [C11] @seenMono seenMono()
 //@   ensures  [C05] @cacheKeptPurged implies(old(cachePurged()), cachePurged())
 //@   ensures  [C12] @txKept implies(self.ViewNumber == old(self.ViewNumber), forallOf(Transaction, t, implies(old(has(self.Transactions, t.Hash())), has(self.Transactions, t.Hash()))))
@@ -380,7 +380,7 @@ package dbft
 //@   ensures gBroadcasts >= old(gBroadcasts) && gInbound >= old(gInbound)
 //@   ensures [C05] @cacheKeptPurged implies(old(cachePurged()), cachePurged())
 //@   ensures [C05] @decidedStays implies(old(self.blockProcessed), self.blockProcessed)
-//@   ensures [C05,C07] @handedOver handedOver()
+//@   ensures [C05,C07,C10] @handedOver handedOver()
 //@   ensures [C11] @seenMono seenMono()
 //@   ensures [C12] @txKept implies(self.ViewNumber == old(self.ViewNumber), forallOf(Transaction, t, implies(old(has(self.Transactions, t.Hash())), has(self.Transactions, t.Hash()))))
 //@   ensures  [C03,C01] @lock implies(old(locked()), self.ViewNumber == old(self.ViewNumber) && implies(old(gCommit) != nil, gCommit == old(gCommit)) && implies(old(gPreCommit) != nil, gPreCommit == old(gPreCommit)))
@@ -480,7 +480,7 @@ package dbft
 //@   ensures [C06,C11] @primary self.PrimaryIndex == emod(self.BlockIndex - view, NN())
 // B6: at a new height the tables that feed recovery messages and the failed-node count start empty as well
 //@   ensures [C05] @historyCleared implies(view == 0, forall(i, 0, NN(), self.LastChangeViewPayloads[i] == nil && (self.LastSeenMessage[i] == nil || i == self.MyIndex)))
-//@   ensures [C05,C04,C12,C02,C01,C11] @cleanProposal cleanProposal()
+//@   ensures [C05,C04,C12,C02,C01,C11,C15] @cleanProposal cleanProposal()
 //@   ensures [C05,C07] @cleanHeight implies(view == 0, !self.blockProcessed && !self.preBlockProcessed && self.lastBlockTimestamp == ts)
 //@   ensures [C05] @freshFromCallbacks implies(view == 0, sametable(self.Validators, gValidators) && self.timePerBlock == gTimePerBlock
 //@        && implies(self.Config.MaxTimePerBlock != nil, self.maxTimePerBlock == gMaxTimePerBlock) && tip() && self.MyIndex == first(self.Config.GetKeyPair(self.Validators)))
@@ -780,7 +780,7 @@ package dbft
 //@   use INV
 //@   ensures self.ViewNumber >= view
 //@   ensures implies(view > 0, sameHeight())
-//@   ensures [C05,C07] @handedOver implies(view > 0, handedOver())
+//@   ensures [C05,C07,C10] @handedOver implies(view > 0, handedOver())
 //@   ensures [C11] @seenMono implies(view > 0, seenMono())
 //@   ensures [C15] @sameBase self.lastBlockTimestamp == ts
 //@   ensures @heap heapMono()
@@ -799,14 +799,14 @@ package dbft
 //@   loop 1: use INV
 //@   loop 1: invariant self.ViewNumber >= view && implies(view > 0, sameHeight()) && heapMono() && inboxOK(msgs) && gTimerArms >= old(gTimerArms) && gBroadcasts >= old(gBroadcasts)
 //@   loop 1: invariant [C15] @sameBase self.lastBlockTimestamp == ts
-//@   loop 1: invariant [C05,C07] @handedOver implies(view > 0, handedOver())
+//@   loop 1: invariant [C05,C07,C10] @handedOver implies(view > 0, handedOver())
 //@   loop 1: invariant [C11] @seenMono implies(view > 0, seenMono())
 //@   loop 1: invariant [C05] @replayed gInbound >= old(gInbound) && forall(q, implies(visited(q), gInbound > old(gInbound))) && self.BlockIndex == before(self.BlockIndex)
 //@   loop 1: invariant [C05] @cachePurged implies(view == 0, cachePurged()) && implies(old(cachePurged()), cachePurged())
 //@   loop 2: use INV
 //@   loop 2: invariant self.ViewNumber >= view && implies(view > 0, sameHeight()) && heapMono() && inboxOK(msgs) && gTimerArms >= old(gTimerArms) && gBroadcasts >= old(gBroadcasts)
 //@   loop 2: invariant [C15] @sameBase self.lastBlockTimestamp == ts
-//@   loop 2: invariant [C05,C07] @handedOver implies(view > 0, handedOver())
+//@   loop 2: invariant [C05,C07,C10] @handedOver implies(view > 0, handedOver())
 //@   loop 2: invariant [C11] @seenMono implies(view > 0, seenMono())
 //@   loop 2: invariant [C05] @replayed gInbound >= old(gInbound) && forall(q, implies(visited(q), gInbound > old(gInbound))) && self.BlockIndex == before(self.BlockIndex)
 //@   loop 2: invariant [C05] @replayedBefore forall(h, implies(h == self.BlockIndex && old(has(self.cache.mail, h)) && old(nonEmptyInbox(self.cache.mail[h])), gInbound > old(gInbound)))
@@ -814,7 +814,7 @@ package dbft
 //@   loop 3: use INV
 //@   loop 3: invariant self.ViewNumber >= view && implies(view > 0, sameHeight()) && heapMono() && inboxOK(msgs) && gTimerArms >= old(gTimerArms) && gBroadcasts >= old(gBroadcasts)
 //@   loop 3: invariant [C15] @sameBase self.lastBlockTimestamp == ts
-//@   loop 3: invariant [C05,C07] @handedOver implies(view > 0, handedOver())
+//@   loop 3: invariant [C05,C07,C10] @handedOver implies(view > 0, handedOver())
 //@   loop 3: invariant [C11] @seenMono implies(view > 0, seenMono())
 //@   loop 3: invariant [C05] @replayed gInbound >= old(gInbound) && forall(q, implies(visited(q), gInbound > old(gInbound))) && self.BlockIndex == before(self.BlockIndex)
 //@   loop 3: invariant [C05] @replayedBefore forall(h, implies(h == self.BlockIndex && old(has(self.cache.mail, h)) && old(nonEmptyInbox(self.cache.mail[h])), gInbound > old(gInbound)))
@@ -822,7 +822,7 @@ package dbft
 //@   loop 4: use INV
 //@   loop 4: invariant self.ViewNumber >= view && implies(view > 0, sameHeight()) && heapMono() && inboxOK(msgs) && gTimerArms >= old(gTimerArms) && gBroadcasts >= old(gBroadcasts)
 //@   loop 4: invariant [C15] @sameBase self.lastBlockTimestamp == ts
-//@   loop 4: invariant [C05,C07] @handedOver implies(view > 0, handedOver())
+//@   loop 4: invariant [C05,C07,C10] @handedOver implies(view > 0, handedOver())
 //@   loop 4: invariant [C11] @seenMono implies(view > 0, seenMono())
 //@   loop 4: invariant [C05] @replayed gInbound >= old(gInbound) && forall(q, implies(visited(q), gInbound > old(gInbound))) && self.BlockIndex == before(self.BlockIndex)
 //@   loop 4: invariant [C05] @replayedBefore forall(h, implies(h == self.BlockIndex && old(has(self.cache.mail, h)) && old(nonEmptyInbox(self.cache.mail[h])), gInbound > old(gInbound)))
@@ -939,7 +939,10 @@ package dbft
 //@ func (*DBFT).processMissingTx
 //@   requires wf()
 //@   loop 1: invariant !isnil(self.Transactions) && txKept()
+//@   loop 1: invariant len(self.MissingTransactions) >= old(len(self.MissingTransactions)) && forall(j, 0, old(len(self.MissingTransactions)), self.MissingTransactions[j] == old(self.MissingTransactions[j]))
 //@   ensures wf() && txKept()
+// C12: what the node already waits for stays awaited (a second pass over the proposal only adds to the list)
+//@   ensures [C12] @keepsAsking len(self.MissingTransactions) >= old(len(self.MissingTransactions)) && forall(j, 0, old(len(self.MissingTransactions)), self.MissingTransactions[j] == old(self.MissingTransactions[j]))
 //@   modifies Context.MissingTransactions, Context.Transactions
 //@ func (*DBFT).createAndCheckBlock
 //@   use U
